@@ -90,6 +90,10 @@ ShiftSlots(sl, at, n) ==
   [sl EXCEPT !.sigoff = Sh(@), !.keyoff = Sh(@), !.osigoff = Sh(@), !.from = Sh(@), !.to = Sh(@)]
 StoreTypePrefix(fn) == CASE fn = "ReadLeaseSet2" -> << 3 >> [] fn = "ReadMetaLeaseSet" -> << 7 >> [] fn = "ReadEncryptedLeaseSet" -> << 5 >> [] OTHER -> << >>
 
+\* where the library can verify at all: not the ECDSA types (the dependency's verifier refuses I2P's raw X||Y keys - known finding
+\* KF-C06-ecdsa-verifier), and not offline blocks under a DSA-SHA1 identity (refused by the library, by design)
+\* RouterInfo.VerifySignature supports Ed25519 router identities only (documented there)
+LibVerifies(fn, st, tst) == st \notin {1, 2} /\ tst \notin {1, 2} /\ ~(st = 0 /\ tst >= 0) /\ (fn = "ReadRouterInfo" => st = 7)
 JSignedProbe(e) ==
   LET r == e.r
       typ == IF "typ" \in DOMAIN e THEN e.typ ELSE 0
@@ -102,6 +106,10 @@ JSignedProbe(e) ==
      R("C05", "slots_are_reference_layout", r.setup, SlotsOf(e.fn, r.signed, typ) = EventSlots(e) /\ e.prefix = StoreTypePrefix(e.fn), cls),
      R("C05", "verification_success_implies_authentic", r.setup /\ r.post.parse_ok /\ r.post.verify_ok /\ sameLayout,
        r.indep.sig_ok /\ r.indep.off_ok, cls),
+     \* C01's last sentence: signatures are computed over the re-serialised bytes, and those are the consumed bytes - so a structure that
+     \* parses and carries a genuine signature over the bytes it was parsed from verifies
+     R("C01", "genuine_signature_over_consumed_bytes_verifies", r.setup /\ e.adv.kind = "none" /\ r.pre.parse_ok /\ r.indep.sig_ok /\ r.indep.off_ok /\ LibVerifies(e.fn, e.st, tst),
+       r.pre.verify_ok, cls),
      \* calibration (counts only): honest structures that the library verifies; without them the adversarial steps would be vacuous
      R("C05", "honest_structure_verified_by_library", r.setup /\ e.adv.kind = "none" /\ r.pre.verify_ok, r.indep.sig_ok /\ r.indep.off_ok, cls) >>
 \* a reference skeleton together with its slots: the driver puts real keys and signatures there (buildSigned), so the structure verifies
